@@ -83,7 +83,7 @@ func init() {
 		rule:   "one case = one simulated run: a script of 0..8 Write/WriteString calls of sizes 0..64KiB (one run in eight: 64 KiB..2 GiB, the total passing 2^31 and 2^32) over a fault-injecting wrapped writer, then Close, against 1..2 consumers of four temperaments, under a seeded schedule; non-trivial = at least one context switch where the running task could have continued, forced pre-emption or fired fault; distinct = distinct hash of the full event history",
 		assume: []string{"simulated channel semantics conform to the Go specification (simrt conformance suite)", "sampling, not proof: <=8 operations, <=2 consumers per run"},
 	}
-	worlds["laneworld"].probes = map[string][]string{"*": {"select.multi_ready", "non_positive_push_timeout", "task_pushes_a_task", "push_timeout_fired", "push_ctx_error", "cancel_while_push_in_flight", "cancel_with_tasks_pending", "hol_state_with_pinned_workers", "pending_exact_nonzero", "many_lanes", "concurrent_waiters", "long_deadline", "long_deadline_checked", "pending_exact_after_shutdown", "nil_task_pushed", "long_history", "concurrent_recover_2plus", "headcount_checked", "clock.jump", "ctx.cancel_midrun", "ctx.deadline_fired", "ctx.cancel_before_gates",
+	worlds["laneworld"].probes = map[string][]string{"*": {"select.multi_ready", "non_positive_push_timeout", "task_pushes_a_task", "push_timeout_fired", "push_ctx_error", "cancel_while_push_in_flight", "cancel_with_tasks_pending", "hol_state_with_pinned_workers", "pending_exact_nonzero", "many_lanes", "foreign_context", "push_right_after_cancel", "concurrent_waiters", "long_deadline", "long_deadline_checked", "pending_exact_after_shutdown", "nil_task_pushed", "long_history", "concurrent_recover_2plus", "headcount_checked", "clock.jump", "ctx.cancel_midrun", "ctx.deadline_fired", "ctx.cancel_before_gates",
 		"cancel_with_queue_goroutine_blocked_in_handover", "cancel_with_queue_goroutine_about_to_hand_over", "cancel_with_worker_idle", "cancel_with_queue_goroutine_idle",
 		"cancel_with_producer_blocked_on_full_lane", "cancel_with_producer_about_to_enqueue", "cancel_with_worker_mid_task"}}
 	worlds["progressworld"].probes = map[string][]string{"*": {"consumer_absent_until_close", "consumer_walked_away", "consumer_late", "consumer_slow", "stringwriter_path", "total_beyond_2GiB", "over_a_thousand_writes", "write.short", "write.error_partial", "write.error_zero"}}
@@ -127,7 +127,7 @@ func init() {
 	propWorld["C02"] = "logworld"
 	propWorld["C03"] = "logworld"
 	worlds["filterworld"].probes = map[string][]string{
-		"C11": {"removed_slot_before_switch", "second_filter_matches_all", "long_history", "over_a_thousand_removes", "crossed_switch_during_run", "remove_after_migration"},
+		"C11": {"removed_slot_before_switch", "second_filter_matches_all", "caller_keeps_addresses", "long_history", "over_a_thousand_removes", "crossed_switch_during_run", "remove_after_migration"},
 		"C12": {"crossed_switch_while_readers_run", "second_filter_matches_all", "matchall_toggled", "lookup_overlaps_writers", "lookup_with_either_answer_legal", "removed_slot_before_switch"}}
 	propWorld["C11"] = "filterworld"
 	propWorld["C12"] = "filterworld"
